@@ -334,7 +334,7 @@ Section Step.
 
   Theorem tl_step_law l o : law_step vld l o (tl_step vld l o) = [].
   Proof.
-    destruct o as [i v|sl vs|i|sl|v|vs|vs|n|i v|oi|v| |r| ]; unfold tl_step.
+    destruct o as [i v|sl vs|i|sl|v|vs|vs|n|i v|oi|v| |m r| ]; unfold tl_step.
     - (* SetInt *)
       rewrite removed_items_int. unfold setitem_int.
       destruct (in_range (zlen l) i) eqn:R.
